@@ -77,11 +77,12 @@ MANIFEST = dict(
          "check fire): StepMania #OFFSET not the first timing point (OsuToSM, QuaToSM: cdbdcdf), SMToOsu CircleSize (24f5d51), key "
          "count taken from the largest used column in OsuToSM / QuaToSM / O2JToSM (5e5686a), two-decimal #BPMS beats (6b5cf38), BMS "
          "header (31e60b2) and sample-name (d05f0bf) crashes; three of them are _refuted theorems about the OLD written files with "
-         "_current twins on what the repaired tree writes. Four remain known findings: reseated tempo lists of StepMania / BMS "
-         "sources, the key count of BMS sources (no key-count attribute), duplicate O2Jam tempo at 0 in BMS, ':.3f' BMS tempos.",
+         "_current twins on what the repaired tree writes. Five remain known findings: reseated tempo lists of StepMania / BMS "
+         "sources, the key count of BMS sources (no key-count attribute), duplicate O2Jam tempo at 0 in BMS, ':.3f' BMS tempos, and (found by the "
+         "thorough tier) StepMania rows floored in measures capped at 384 rows after a tempo point that is not on a 1/96-beat row.",
     note="Trusted: Coq kernel+VM, the reference interpreters of the component properties, generator / serialiser / diagnose() of "
          "harness/props/c09.py, PyYAML and struct. corr is a composition of denotations, not of the component models (except in the "
-         "O2Jam -> Quaver theorem). Known findings (14 keys) are listed per pair in findings/C09.json and keep being generated; any other "
+         "O2Jam -> Quaver theorem). Known findings (16 keys) are listed per pair in findings/C09.json and keep being generated; any other "
          "violation, including a recurrence of a fixed one, raises. Not covered: scroll velocities and metadata through the pipeline (C08 checks the wiring), rolls / mines "
          "dropped by SMTo*, BMS charts whose first tempo point is not at 0 ms (shifted by the writer; treated as outside the format).",
     technique="Coq proof (composition of C06/C07/C08 theorems) + reference interpreters evaluated by vm_compute on the implementation's files",
@@ -1331,11 +1332,11 @@ def diagnose(case, out, k):
     if match(stl, ttl, bound, shift=sh) is None:
         # python sees no violation of the property: a correspondence-only divergence.  Known ones: a defect below the
         # resolution (an #OFFSET off by less than a step; the ':.3f' tempo table; a two-decimal tempo beat)
-        if b == "sm" and st and tt and tt[0][0] != st[0][0] and a in ("osu", "qua"):
+        if b == "sm" and st and tt and abs(tt[0][0] - st[0][0]) > TOL and a in ("osu", "qua"):
             return {"osu": "sm-offset-zero", "qua": "sm-offset-stack-min"}[a]
         if b == "bms" and len(st) == len(tt) and any(v1 != v2 for (_, v1), (_, v2) in zip(st, tt)):
             return "bms-bpm-3f-rounding"
-        if b == "sm" and _tempo_off_centibeat(st) and _written_beats_2dp(v):
+        if b == "sm" and _written_beats_2dp(v, st):
             return "sm-bpms-beat-2dp"
         return None
     # ---- O2Jam header tempo + tempo event at position 0, both written
@@ -1345,7 +1346,7 @@ def diagnose(case, out, k):
     #      in the case is compensated; the key is the first present cause
     present = []
     src, dt, bnd, notes_only = stl, 0, bound, False
-    if b == "sm" and st and tt and tt[0][0] != st[0][0] and a in ("osu", "qua"):
+    if b == "sm" and st and tt and abs(tt[0][0] - st[0][0]) > TOL and a in ("osu", "qua"):
         present.append({"osu": "sm-offset-zero", "qua": "sm-offset-stack-min"}[a])     # #OFFSET is not the first tempo point
         dt = tt[0][0] - st[0][0]
     if a == "sm" and b == "osu" and case["keys"] != 4 and _written_circle_size(v) != case["keys"]:
@@ -1362,12 +1363,20 @@ def diagnose(case, out, k):
         bnd0 = bnd
         bnd = lambda t, f=bnd0, d=drift: f(t) + d
         notes_only = notes_only or "relax-bpm"
-    if b == "sm" and len(st) > 1 and _tempo_off_centibeat(st) and _written_beats_2dp(v):
+    if b == "sm" and len(st) > 1 and _written_beats_2dp(v, st):
         present.append("sm-bpms-beat-2dp")                                              # tempo beats printed with two decimals
         slack = sum(Fr(1, 200) * abs(Fr(60000) / st[i][1] - Fr(60000) / st[i - 1][1]) for i in range(1, len(st)))
         slack += Fr(1, 200) * max(Fr(60000) / v for _, v in st)
         bnd1 = bnd
         bnd = lambda t, f=bnd1, d=slack: f(t) + d
+    if b == "sm" and len(st) > 1 and any((bt * 96).denominator != 1 for bt, _, _ in _snapped_tempo(st)) and _capped_measure(v):
+        # notes are snapped RELATIVE to the tempo point in force (<= 1/192 beat either way, the point itself is snapped too);
+        # when that point is not on a 1/96-beat row and the measure needs more than 384 rows, the row is then FLOORED
+        # (< 1 row early): together more than one 1/96-beat row
+        present.append("sm-row-floor-in-capped-measure")
+        disp = max(Fr(60000) / bv for _, bv in st) / 192 + sum(bl / 192 for _, d, bl in _snapped_tempo(st) if d)
+        bnd2 = bnd
+        bnd = lambda t, f=bnd2, d=disp: f(t) + d
     if not present:
         return None
     if notes_only is True:
@@ -1389,13 +1398,57 @@ def _written_circle_size(lines):
     return None
 
 
-def _written_beats_2dp(text):
-    """every #BPMS beat of the written StepMania text has at most two decimals"""
+_FAREY = None
+
+
+def _snap_beats(x):
+    """Snapper().snap of a beat count: whole beats + the nearest fraction with denominator <= 96"""
+    import bisect
+    global _FAREY
+    if _FAREY is None:
+        _FAREY = sorted({Fr(p_, q_) for q_ in range(1, 97) for p_ in range(0, q_ + 1)})
+    fl = x.numerator // x.denominator
+    fr = x - fl
+    i = bisect.bisect_left(_FAREY, fr)
+    cands = [_FAREY[j] for j in (i - 1, i) if 0 <= j < len(_FAREY)]
+    return fl + min(cands, key=lambda c: abs(c - fr))
+
+
+def _snapped_tempo(st):
+    """what TimingMap makes of the tempo points: [(cumulative snapped beat, displaced?, beat length before)]"""
+    out, beat = [(Fr(0), False, Fr(0))], Fr(0)
+    for i in range(1, len(st)):
+        bl = Fr(60000) / st[i - 1][1]
+        x = (st[i][0] - st[i - 1][0]) / bl
+        sx = _snap_beats(x)
+        beat += sx
+        out.append((beat, abs(sx - x) > Fr(1, 10 ** 9), bl))
+    return out
+
+
+def _written_beats_2dp(text, st):
+    """the #BPMS beats of the written text are the snapped beats rounded to TWO decimals, and that differs from six"""
     try:
         _, pairs, _ = sm_parse(text)
     except Exception:
         return False
-    return all((b * 100).denominator == 1 for b, _ in pairs)
+    snapped = sorted(b for b, _, _ in _snapped_tempo(st))
+    if len(pairs) != len(snapped):
+        return False
+    w = [b for b, _ in pairs]
+    r2 = [Fr(round(float(b), 2)).limit_denominator(10 ** 7) for b in snapped]
+    r6 = [Fr(round(float(b), 6)).limit_denominator(10 ** 7) for b in snapped]
+    eq = lambda x, y: all(abs(p - q) <= Fr(1, 10 ** 8) for p, q in zip(x, y))
+    return eq(w, r2) and not eq(w, r6)
+
+
+def _capped_measure(text):
+    """some measure of the written chart has the maximum of 384 rows"""
+    try:
+        _, _, charts = sm_parse(text)
+    except Exception:
+        return False
+    return any(len(m) >= 384 for m in charts[0][1])
 
 
 def _tempo_off_centibeat(st):
